@@ -9,6 +9,7 @@ import (
 	"strconv"
 	"strings"
 	"unicode"
+	"unicode/utf8"
 
 	"golang.org/x/tools/go/ssa"
 	"verif/engine/sym"
@@ -980,6 +981,46 @@ func (m *Machine) intrinsic(caller *frame, fn *ssa.Function, fi *funcInfo, args 
 			return c.Or(rng(9, 13), c.Eq(r, c.BV(r.W, ' '))), true
 		}
 
+	case "strconv.FormatFloat":
+		m.Stats.Intrinsics[name] = true
+		if f, ok := args[0].(float64); ok {
+			return strconv.FormatFloat(f, byte(m.asInt(args[1])), int(m.asInt(args[2])), int(m.asInt(args[3]))), true
+		}
+		return mkStr([]Value{m.newOpaque("strconv.FormatFloat of symbolic float", true)}), true
+	case "strconv.FormatBool":
+		m.Stats.Intrinsics[name] = true
+		if b, ok := args[0].(bool); ok {
+			return strconv.FormatBool(b), true
+		}
+		return mkStr([]Value{m.newOpaque("strconv.FormatBool of symbolic bool", true)}), true
+	case "strconv.FormatInt":
+		m.Stats.Intrinsics[name] = true
+		if x, ok := args[0].(int64); ok {
+			return strconv.FormatInt(x, int(m.asInt(args[1]))), true
+		}
+		return mkStr([]Value{m.newOpaque("strconv.FormatInt of symbolic int", true)}), true
+	case "unicode/utf8.RuneCountInString":
+		m.Stats.Intrinsics[name] = true
+		if cs, ok := args[0].(string); ok {
+			return int64(utf8.RuneCountInString(cs)), true
+		}
+		// symbolic bytes: one rune per byte when every byte is ASCII
+		p := strPieces(args[0])
+		for _, b := range p {
+			switch b := b.(type) {
+			case int64:
+				if b >= 0x80 {
+					m.unsupported("utf8.RuneCountInString over non-ASCII symbolic string")
+				}
+			case *sym.Term:
+				if !m.Branch(m.Ctx.Bin(sym.OpUlt, b, m.Ctx.BV(8, 0x80))) {
+					m.unsupported("utf8.RuneCountInString over non-ASCII symbolic string")
+				}
+			default:
+				m.unsupported("utf8.RuneCountInString over an opaque string")
+			}
+		}
+		return int64(len(p)), true
 	case "strconv.Itoa":
 		if x, ok := args[0].(int64); ok {
 			return strconv.Itoa(int(x)), true
